@@ -76,6 +76,7 @@ def e2_task(name, call, outputs, complex_, shape_desc, native=None):
         from pyvc.interp import Interp
         I = Interp(tc.program, dom, tc.lib, stubs=dpss_stub(dom))
         hints = dict(native or {})
+        tc.native = ("scaling", hints)
         hints.update({"complex": complex_, "shape": shape_desc})
 
         def post(P):
